@@ -865,6 +865,11 @@ class Variant(VariantBase):
     def _validate_arches(self):
         self._assert_type("arches", [set, frozenset])
         self._assert_not_blank("arches")
+        for arch in self.arches:
+            if not isinstance(arch, six.string_types):
+                raise TypeError("Variant '%s': arch must be a string: %r" % (self.uid, arch))
+            if not arch.strip():
+                raise ValueError("Variant '%s': arch must not be blank" % self.uid)
 
     def _validate_parent_arch(self):
         if self.parent is None:
